@@ -7,3 +7,7 @@ import NdnProofs.Props.C06
 #print axioms Ndn.C06.receive_frame
 #print axioms Ndn.C06.receive_preserves_wf
 #print axioms Ndn.C06.udp_total
+#print axioms Ndn.C06.docErr_iff_raisable
+#print axioms Ndn.C06.bytes_decoders_raise_only
+#print axioms Ndn.C06.receive_bytes_total
+#print axioms Ndn.C06.receive_bytes_frame
